@@ -80,4 +80,7 @@ Print Assumptions C13_route_head.
 Print Assumptions C13_route_cas.
 Print Assumptions C13_route_append.
 Print Assumptions C13_route_other_methods.
+Theorem C13_param_last_wins : forall k v w ps, param_last k ((k, w) :: ps ++ [(k, v)]) = Some v.
+Proof. exact param_last_decoy. Qed.
+Print Assumptions C13_param_last_wins.
 Check route_head_repeated_strip_refuted.
